@@ -112,6 +112,7 @@ from .iter_elim import (
     destructure_subst,
     index_access,
     is_access_path,
+    may_mutate,
     plan_for_zip,
 )
 
@@ -185,7 +186,7 @@ class _EnumerateElimInstance(DefaultTransformVisitor):
 
     def _visit_for(self, stmt: ForStmt, ctx: Ctx):
         split = _split_target(stmt.target, stmt.iterable)
-        if split is None:
+        if split is None or may_mutate(stmt.body):
             return super()._visit_for(stmt, ctx)
         # Recursively rewrite the body first, in case it contains nested
         # enumerate patterns.
@@ -237,6 +238,8 @@ class _EnumerateElimInstance(DefaultTransformVisitor):
     # List comprehensions
 
     def _visit_list_comp(self, e: ListComp, ctx: Any):
+        if may_mutate(e.elt):
+            return super()._visit_list_comp(e, ctx)
         new_targets: list[Id | TupleBinding] = []
         new_iterables: list[Expr] = []
         subst: dict[NamedId, Expr] = {}
